@@ -107,7 +107,7 @@ pub const EDIT_KINDS: [&str; 35] = [
 ];
 
 /// Item-level edits (applied on the program, not on an expression site)
-pub const ITEM_EDITS: [&str; 10] = [
+pub const ITEM_EDITS: [&str; 12] = [
     "accept-in-fn",
     "return-in-const",
     "assign-to-const",
@@ -117,6 +117,19 @@ pub const ITEM_EDITS: [&str; 10] = [
     "recursive-record-through-option",
     "const-depends-on-itself",
     "const-cycle-through-function",
+    // A constant that depends on itself through a *group* of 2-4 new functions with a
+    // random call graph: `const K = g_i();`, every function's body is the sum of calls
+    // to a random subset of the group (mutual recursion, self calls, several strongly
+    // connected shapes) and at least one function reachable from g_i mentions K. Names
+    // get a random suffix and the new items are printed at random places among the old
+    // ones in random relative order (cycle detection walks items in an order that
+    // depends on both). Optionally a second constant sits between K and the group.
+    "const-cycle-through-function-group",
+    // A type that contains itself only through the argument of a generic (Option, List,
+    // a new generic record or enum), directly or through a second new type, as record
+    // field or enum payload, with 0-2 *harmless* uses of the same generic (other
+    // arguments) before and after the recursive mention.
+    "recursive-type-through-generic",
     // generated programs have no local of type Verdict: a synthesised function
     // matches on a Verdict parameter, and one of its two arms is retargeted
     "match-retarget-verdict",
@@ -130,12 +143,96 @@ fn int_lit() -> Expr {
     Expr::new(Ty::Int(IntTy::I32), EK::Lit(Lit::Int { v: 7, suffix: false, hex: false, under: false }))
 }
 
-/// An expression whose type cannot equal `expected`.
-fn non_unifiable(expected: &Ty) -> Expr {
-    match expected {
-        Ty::Bool => int_lit(),
-        _ => bool_lit(),
+/// An expression whose type cannot equal `expected`: one entry, chosen by `m`, of a
+/// palette of expressions of *closed* types (no un-suffixed literal where `expected` is
+/// numeric, never `!`-typed) that differ from `expected` in their outermost constructor
+/// or, for numbers, in their declared width. Returns the name of the entry (coverage tag).
+///
+/// The palette deliberately goes beyond "a bool where a number is wanted": unit-typed
+/// *statement-like* expressions in value position (`while`, `for`, `if` without `else`,
+/// a block that ends in a statement), the unit literal, suffixed literals of another
+/// width, the expected value wrapped in `Some(..)` / `[..]`, `None`, strings, chars and
+/// anonymous records. Each entry was checked to be refused with "mismatched types" by the
+/// unchanged tree at every one of the eight typed positions.
+fn non_unifiable(expected: &Ty, orig: &Expr, m: &mut Mix) -> (Expr, &'static str) {
+    let mut pal: Vec<(&'static str, Expr)> = Vec::new();
+    let lit_int = |t: IntTy, v: i128| Expr::int(t, v);
+    let flt = |ty: Ty, text: &str, suffix: bool| Expr::new(ty, EK::Lit(Lit::Float { text: text.to_string(), suffix }));
+    let unit_like = !matches!(expected, Ty::Unit);
+    if *expected != Ty::Bool {
+        pal.push(("bool", bool_lit()));
     }
+    if !expected.is_numeric() {
+        // an un-suffixed literal is an open integer type: only where no number fits
+        pal.push(("int-unsuffixed", int_lit()));
+        pal.push(("float-unsuffixed", flt(Ty::F64, "7.5", false)));
+    }
+    // a suffixed integer literal of another width / signedness
+    let other_int = match expected {
+        Ty::Int(IntTy::U8) => IntTy::I64,
+        Ty::Int(IntTy::I64) => IntTy::U8,
+        Ty::Int(IntTy::I32) => IntTy::U32,
+        Ty::Int(IntTy::U32) => IntTy::I32,
+        Ty::Int(_) => IntTy::I32,
+        _ => IntTy::U8,
+    };
+    pal.push(("int-suffixed-other-width", lit_int(other_int, 7)));
+    match expected {
+        Ty::F32 => pal.push(("float-suffixed-other-width", flt(Ty::F64, "7.5", true))),
+        Ty::F64 => pal.push(("float-suffixed-other-width", flt(Ty::F32, "7.5", true))),
+        Ty::Int(_) => pal.push(("float-for-int", flt(Ty::F64, "7.5", false))),
+        _ => {}
+    }
+    if expected.is_float() {
+        pal.push(("int-for-float", int_lit()));
+    }
+    if *expected != Ty::Str {
+        pal.push(("string", Expr::new(Ty::Str, EK::Lit(Lit::Str("s".to_string())))));
+    }
+    if *expected != Ty::Char {
+        pal.push(("char", Expr::new(Ty::Char, EK::Lit(Lit::Char('c')))));
+    }
+    if unit_like {
+        pal.push(("unit-literal", Expr::unit()));
+        pal.push(("while-loop", Expr::new(Ty::Unit, EK::While(Box::new(Expr::boolean(false)), Block::default()))));
+        pal.push((
+            "for-loop",
+            Expr::new(
+                Ty::Unit,
+                EK::For(
+                    "zz_i".to_string(),
+                    Box::new(Expr::new(Ty::list(Ty::Int(IntTy::I32)), EK::ListLit(vec![int_lit()]))),
+                    Block::default(),
+                ),
+            ),
+        ));
+        pal.push(("if-without-else", Expr::new(Ty::Unit, EK::If(Box::new(Expr::boolean(true)), Block::default(), None))));
+        pal.push((
+            "block-ending-in-statement",
+            Expr::new(
+                Ty::Unit,
+                EK::Block(Block { stmts: vec![Stmt::Let("zz_a".to_string(), None, int_lit())], tail: None }),
+            ),
+        ));
+    }
+    if !matches!(expected, Ty::Opt(_)) {
+        pal.push(("none", Expr::new(Ty::opt(Ty::Int(IntTy::I32)), EK::Ctor(Ctor::None, vec![]))));
+    }
+    // the value itself, wrapped once more: Some(e) / [e] have the types T? / List[T]
+    if orig.ty == *expected && !matches!(expected, Ty::Unit) {
+        pal.push(("wrapped-in-some", Expr::new(Ty::opt(expected.clone()), EK::Ctor(Ctor::Some, vec![orig.clone()]))));
+        pal.push(("wrapped-in-list", Expr::new(Ty::list(expected.clone()), EK::ListLit(vec![orig.clone()]))));
+    }
+    // anonymous records coerce to named records with the same fields: only where no record fits
+    if !matches!(expected, Ty::Anon(_) | Ty::Named(..)) {
+        pal.push((
+            "anonymous-record",
+            Expr::new(Ty::Anon(vec![("zz_f".to_string(), Ty::Int(IntTy::I32))]), EK::RecLit(None, vec![("zz_f".to_string(), int_lit())])),
+        ));
+    }
+    let i = m.below(pal.len());
+    let (name, e) = pal.swap_remove(i);
+    (e, name)
 }
 
 struct Walker<'a> {
@@ -687,7 +784,11 @@ impl Walker<'_> {
         };
         if self.kind == wanted && !matches!(e.ty, Ty::Unit) && self.hit() {
             let expected = if pos == Pos::Cond { Ty::Bool } else { e.ty.clone() };
-            *e = non_unifiable(&expected);
+            let mut m = Mix(self.rng_word);
+            let (wrong, name) = non_unifiable(&expected, &e.clone(), &mut m);
+            self.tags.push(format!("mismatch:{name}"));
+            self.tags.push(format!("{}:{name}", self.kind));
+            *e = wrong;
             return;
         }
         // --- edits keyed on the node itself ---
@@ -1246,7 +1347,17 @@ pub fn apply_full(prog: &Program, kind: &str, site: usize, word: u64) -> Option<
 
 /// Number of distinct sites at which `kind` can be applied to `prog`.
 pub fn sites(prog: &Program, kind: &str) -> usize {
-    if ITEM_EDITS.contains(&kind) { if item_edit(prog, kind, 0).is_some() { 1 } else { 0 } } else { count_sites(prog, kind) }
+    if ITEM_EDITS.contains(&kind) {
+        if item_edit(prog, kind, 0).is_none() {
+            0
+        } else if matches!(kind, "const-cycle-through-function-group" | "recursive-type-through-generic") {
+            3
+        } else {
+            1
+        }
+    } else {
+        count_sites(prog, kind)
+    }
 }
 
 /// Apply edit `kind` at site `site`. Returns None if not applicable.
@@ -1403,6 +1514,191 @@ fn item_edit_full(prog: &Program, kind: &str, word: u64, control: bool, tags: &m
             shift_calls(&mut p, 1);
             let call = Expr::new(Ty::Int(IntTy::I32), EK::Call(0, vec![]));
             p.consts.push(ConstDecl { name: "ZZ_CYC".into(), ty: Ty::Int(IntTy::I32), init: call });
+        }
+        "const-cycle-through-function-group" => {
+            let mut m = Mix(word ^ 0x51ed_270b_0f1e_2d3c);
+            let n = 2 + m.below(3); // 2..=4 functions
+            let sfx = format!("{}", (b'a' + m.below(26) as u8) as char);
+            let i32t = Ty::Int(IntTy::I32);
+            let base = p.fns.len();
+            let kname = format!("ZZ_K{}", sfx.to_uppercase());
+            let k2name = format!("ZZ_J{}", sfx.to_uppercase());
+            let two_consts = m.below(3) == 0;
+            // call graph: edges[i] = callees of function i (within the group)
+            let mut edges: Vec<Vec<usize>> = (0..n).map(|_| Vec::new()).collect();
+            for (i, e) in edges.iter_mut().enumerate() {
+                for j in 0..n {
+                    if m.below(5) < 2 && !(n == 1 && i == j) {
+                        e.push(j);
+                    }
+                }
+            }
+            // a ring through all functions guarantees that everything is reachable from the entry
+            if m.below(4) != 0 {
+                for i in 0..n {
+                    let j = (i + 1) % n;
+                    if !edges[i].contains(&j) {
+                        edges[i].push(j);
+                    }
+                }
+            } else {
+                // a chain 0 -> 1 -> .. -> n-1 (plus whatever random edges exist)
+                for i in 0..n - 1 {
+                    if !edges[i].contains(&(i + 1)) {
+                        edges[i].push(i + 1);
+                    }
+                }
+            }
+            let entry = m.below(n);
+            // functions reachable from the entry
+            let mut reach = vec![false; n];
+            let mut stack = vec![entry];
+            while let Some(v) = stack.pop() {
+                if !reach[v] {
+                    reach[v] = true;
+                    stack.extend(edges[v].iter().copied());
+                }
+            }
+            let reachable: Vec<usize> = (0..n).filter(|&i| reach[i]).collect();
+            let mentions = reachable[m.below(reachable.len())];
+            tags.push(format!("const-cycle-group:fns:{n}"));
+            tags.push(format!("const-cycle-group:mention-at-entry:{}", mentions == entry));
+            tags.push(format!("const-cycle-group:two-constants:{two_consts}"));
+            for (i, callees) in edges.iter().enumerate() {
+                let mut terms: Vec<Expr> = Vec::new();
+                let mut cs = callees.clone();
+                // the order of the operands decides which edge a depth-first walk follows first
+                for a in (1..cs.len()).rev() {
+                    cs.swap(a, m.below(a + 1));
+                }
+                for &j in &cs {
+                    terms.push(Expr::new(i32t.clone(), EK::Call(base + j, vec![])));
+                }
+                if i == mentions {
+                    let at = m.below(terms.len() + 1);
+                    terms.insert(at, Expr::var(if two_consts { &k2name } else { &kname }, i32t.clone()));
+                }
+                if terms.is_empty() || m.below(2) == 0 {
+                    terms.push(int_lit());
+                }
+                let mut body = terms.remove(0);
+                for t in terms {
+                    body = Expr::new(i32t.clone(), EK::Bin(BinOp::Add, Box::new(body), Box::new(t)));
+                }
+                p.fns.push(FnDecl {
+                    name: format!("zz_g{i}{sfx}"),
+                    kind: FnKind::Fn,
+                    params: vec![],
+                    ret: i32t.clone(),
+                    body: Block { stmts: vec![], tail: Some(Box::new(body)) },
+                });
+            }
+            let call = Expr::new(i32t.clone(), EK::Call(base + entry, vec![]));
+            let kbase = p.consts.len();
+            p.consts.push(ConstDecl { name: kname.clone(), ty: i32t.clone(), init: call });
+            if two_consts {
+                // K = g(); J = K + 7; some g mentions J
+                let init = Expr::new(i32t.clone(), EK::Bin(BinOp::Add, Box::new(Expr::var(&kname, i32t.clone())), Box::new(int_lit())));
+                p.consts.push(ConstDecl { name: k2name, ty: i32t.clone(), init });
+            }
+            // old items in their default order, the new ones inserted at random places
+            let mut order: Vec<(u8, usize)> = Vec::new();
+            order.extend((0..p.types.len()).map(|i| (0u8, i)));
+            order.extend((0..kbase).map(|i| (1u8, i)));
+            order.extend((0..base).map(|i| (2u8, i)));
+            let first_new_pos = p.types.len(); // never before a type declaration it does not need anyway
+            let mut newi: Vec<(u8, usize)> = (kbase..p.consts.len()).map(|i| (1u8, i)).collect();
+            newi.extend((base..p.fns.len()).map(|i| (2u8, i)));
+            for a in (1..newi.len()).rev() {
+                newi.swap(a, m.below(a + 1));
+            }
+            for it in newi {
+                let at = first_new_pos + m.below(order.len() - first_new_pos + 1);
+                order.insert(at, it);
+            }
+            p.item_order = order;
+            return Some(p);
+        }
+        "recursive-type-through-generic" => {
+            let mut m = Mix(word ^ 0x2c1b_3c6d_9f4a_7c15);
+            let sfx = format!("{}", (b'A' + m.below(26) as u8) as char);
+            let d = p.types.len();
+            // the generic the cycle runs through
+            let wrapper = m.below(4);
+            let mut next = d;
+            let mut user_generic = None;
+            if wrapper >= 2 {
+                // a new generic record / enum
+                let decl = if wrapper == 2 {
+                    TypeDecl::Record { name: format!("ZzBox{sfx}"), params: vec!["T".into()], fields: vec![("v".into(), Ty::Param(0))] }
+                } else {
+                    TypeDecl::Enum { name: format!("ZzMay{sfx}"), params: vec!["T".into()], variants: vec![("ZzHas".into(), vec![Ty::Param(0)]), ("ZzNot".into(), vec![])] }
+                };
+                p.types.push(decl);
+                user_generic = Some(next);
+                next += 1;
+            }
+            let wrap = |t: Ty| -> Ty {
+                match wrapper {
+                    0 => Ty::opt(t),
+                    1 => Ty::list(t),
+                    _ => Ty::Named(user_generic.unwrap(), vec![t]),
+                }
+            };
+            tags.push(format!("recursive-generic:wrapper:{}", ["option", "list", "generic-record", "generic-enum"][wrapper]));
+            let harmless = [Ty::Int(IntTy::U32), Ty::Bool, Ty::Str, Ty::Int(IntTy::U8), Ty::F64];
+            let mutual = m.below(3) == 0;
+            let a = next;
+            let b = next + 1;
+            // members of type A: harmless uses of the same generic around the recursive one
+            let before = m.below(3);
+            let after = m.below(3);
+            tags.push(format!("recursive-generic:harmless-before:{before}"));
+            tags.push(format!("recursive-generic:harmless-after:{after}"));
+            tags.push(format!("recursive-generic:mutual:{mutual}"));
+            let target = if mutual { b } else { a };
+            let mut members: Vec<Ty> = Vec::new();
+            for _ in 0..before {
+                members.push(wrap(harmless[m.below(harmless.len())].clone()));
+            }
+            members.push(wrap(Ty::Named(target, vec![])));
+            for _ in 0..after {
+                members.push(wrap(harmless[m.below(harmless.len())].clone()));
+            }
+            let as_enum = m.below(2) == 0;
+            tags.push(format!("recursive-generic:as:{}", if as_enum { "enum" } else { "record" }));
+            let mk = |name: String, members: Vec<Ty>, as_enum: bool| -> TypeDecl {
+                if as_enum {
+                    TypeDecl::Enum {
+                        name,
+                        params: vec![],
+                        variants: members.into_iter().enumerate().map(|(i, t)| (format!("ZzV{i}"), vec![t])).chain(std::iter::once(("ZzEnd".to_string(), vec![]))).collect(),
+                    }
+                } else {
+                    TypeDecl::Record { name, params: vec![], fields: members.into_iter().enumerate().map(|(i, t)| (format!("zz_m{i}"), t)).collect() }
+                }
+            };
+            p.types.push(mk(format!("ZzRg{sfx}"), members, as_enum));
+            if mutual {
+                let mut bm = Vec::new();
+                if m.below(2) == 0 {
+                    bm.push(wrap(harmless[m.below(harmless.len())].clone()));
+                }
+                // back to A, through the generic again or directly
+                bm.push(if m.below(2) == 0 { wrap(Ty::Named(a, vec![])) } else { Ty::Named(a, vec![]) });
+                p.types.push(mk(format!("ZzRh{sfx}"), bm, m.below(2) == 0));
+            }
+            // the type is also used (a parameter), as unused declarations may be checked less
+            if m.below(2) == 0 {
+                p.fns.push(FnDecl {
+                    name: format!("zz_use{}", sfx.to_lowercase()),
+                    kind: FnKind::Fn,
+                    params: vec![("zz_p".into(), Ty::Named(a, vec![]))],
+                    ret: Ty::Int(IntTy::I32),
+                    body: Block { stmts: vec![], tail: Some(Box::new(int_lit())) },
+                });
+                tags.push("recursive-generic:used-as-parameter".into());
+            }
         }
         _ => return None,
     }
